@@ -31,6 +31,7 @@ type RootSpec struct {
 	Outside   string   `json:"outside"`
 	NoReplay  bool     `json:"no_replay"` // findings of this root cannot be replayed natively (stated)
 	MaxPaths  int      `json:"max_paths"`
+	Replace   map[string]string `json:"replace"` // callee (full name) -> harness function with the same signature, engine side only
 	SkipGo    []string `json:"skip_go"` // goroutines (by function-name substring) that are not started in this root
 }
 
@@ -196,6 +197,7 @@ func vKnown(id string, c bool) bool
 func vYield(id string)
 func vGo(name string, f func())
 func vSeqPart(key, prefix string, idx int) uint64
+func vTempDir() string
 `
 
 type Loaded struct {
@@ -377,6 +379,7 @@ func newMachine(l *Loaded, spec *RootSpec, solverBin string) *Machine {
 		m.summarize[s] = true
 	}
 	m.skipGo = spec.SkipGo
+	m.replace = spec.Replace
 	m.ctx.solver = NewSolver(solverBin, "-in", "-t:20000")
 	return m
 }
@@ -616,6 +619,23 @@ func cmdRun(a []string) int {
 	}
 	if len(a) > 5 {
 		spec.SkipGo = strings.Split(a[5], ",")
+	}
+	for _, ps := range ix.Properties {
+		for i := range ps.Roots {
+			r := &ps.Roots[i]
+			if r.Fn == spec.Fn && r.Pkg == spec.Pkg {
+				if spec.Unwind == 0 {
+					spec.Unwind = r.Unwind
+				}
+				if spec.Summarize == nil {
+					spec.Summarize = r.Summarize
+				}
+				if spec.SkipGo == nil {
+					spec.SkipGo = r.SkipGo
+				}
+				spec.Replace = r.Replace
+			}
+		}
 	}
 	l := load(ix, []string{spec.Pkg})
 	fmt.Printf("loaded in %v\n", l.dur)
